@@ -504,24 +504,73 @@ def _r5(ctx, m):
             a = args.get(fld)
             ctx.check(a is not None and bool(pred(simp(a))), "R5", f"ODEContent.{fld}", (FILE, ocall[1]),
                       f"field `{fld}` receives {desc}", expected=desc, found=show(simp(a))[:100] if a is not None else "missing")
-    # --- RenormContent
-    fn = pkg.method("TemplateLoader", "_prepare_renorm_content")
+    # --- RenormContent: by role -- `factor` holds one entry per species, `matrix` one per (element, element) pair, whichever way the
+    #     lists are filled (nested loops, itertools.product, comprehensions, helper methods put back by pymodel.expanded)
+    fn = pkg.expanded("TemplateLoader", "_prepare_renorm_content")
     ctx.saw(FILE, "TemplateLoader._prepare_renorm_content")
     rf = Flow(fn, FILE)
-    depth = {}
-    for f in rf.facts:
-        if f.kind == "append" and f.target != "terms":
-            depth[f.target] = len(f.loops)
+    rparams = [a_.arg for a_ in fn.args.args if a_.arg != "self"]
+    rni = ("param", rparams[0]) if rparams else None
+    SPECS, ELEMS = ("attr", rni, "species"), ("attr", rni, "elements")
+
+    def domains(it):
+        """the base sequences one iteration of `it` stands for: [S] for a position-preserving view of S (enumerate, zip of views of
+        S, comprehension over S), [A, B] for product(A, B); None = not understood"""
+        from ..valueflow import seq_base
+        it = simp(it)
+        if it[0] == "call" and it[1] in (("global", "enumerate"), ("global", "list"), ("global", "tuple"), ("global", "tqdm")) and it[2]:
+            return domains(it[2][0])
+        if it[0] == "call" and it[1] == ("global", "zip") and it[2] and not it[3]:
+            ds = [domains(x) for x in it[2]]
+            return ds[0] if all(d is not None and d == ds[0] for d in ds) else None
+        if it[0] == "call" and it[1] in (("global", "product"), ("attr", ("global", "itertools"), "product")) and it[2] and not it[3]:
+            out = []
+            for x in it[2]:
+                d = domains(x)
+                if d is None:
+                    return None
+                out += d
+            return out
+        b = seq_base(it)
+        return [b] if b is not None else None
+
+    def entry_domain(a):
+        if a[0] == "acc":
+            apps = [f for f in rf.facts if f.kind == "append" and f.target == a[1]]
+            # (that exactly one entry is appended per iteration is C16.R1's subject; here the loops tell which list this is)
+            if not apps or len({tuple(l.id for l in f_.loops) for f_ in apps}) != 1:
+                return None
+            out = []
+            for lp in apps[0].loops:
+                d = domains(lp.iter)
+                if d is None:
+                    return None
+                out += d
+            return out
+        if a[0] == "comp" and a[1] == "list":
+            out = []
+            for tg, it, ifs in a[3]:
+                d = domains(it)
+                if d is None or ifs:
+                    return None
+                out += d
+            return out
+        return None
     for f in rf.facts:
         if f.kind == "return" and ctor(f.value, "RenormContent"):
             args = _bind_args(dataclass_fields(pkg, "TemplateLoader.RenormContent"), ctor(f.value, "RenormContent"))
-            for fld, d in (("factor", 1), ("matrix", 2)):
+            for fld, want, desc in (("factor", [SPECS], "one entry per species"), ("matrix", [ELEMS, ELEMS], "one entry per (element, element) pair")):
                 a = args.get(fld)
                 a = simp(a) if a is not None else None
-                # one entry per iteration of d nested loops: filled by append inside the loops, or a comprehension with d generators
-                ok = a is not None and ((a[0] == "acc" and depth.get(a[1]) == d) or (a[0] == "comp" and a[1] == "list" and len(a[3]) == d))
-                ctx.check(ok, "R5", f"RenormContent.{fld}", (FILE, f.line),
-                          f"field `{fld}` receives the list filled inside {d} nested loop(s)", found=show(a) if a else "missing")
+                dom = entry_domain(a) if a is not None else None
+                key = f"RenormContent.{fld}"
+                if a is None:
+                    ctx.bad("R5", key, (FILE, f.line), f"field `{fld}` is not passed", found="missing")
+                elif dom is None:
+                    ctx.unrec("R5", key, (FILE, f.line), f"how the list passed as `{fld}` is filled is not understood: {show(a)[:100]}")
+                else:
+                    ctx.check(dom == want, "R5", key, (FILE, f.line), f"field `{fld}` receives the list with {desc}",
+                              expected=" x ".join(show(w) for w in want), found=" x ".join(show(w) for w in dom) or "a single value")
     # --- NetworkInfo (2 sites)
     fields = dataclass_fields(pkg, "NetworkInfo")
     n = 0
